@@ -40,7 +40,7 @@ class Mat:
         self.scen = scen
         self.base = base                      # temp dir
         self.root = os.path.join(base, "root")
-        self.extdir = os.path.join(base, "outside", "ext")
+        self.extdir = os.path.join(base, "root_old", "ext")   # a sibling whose name has the root's name as a prefix
         self.seed = seed
         self.paths = {}                       # file id -> absolute canonical path
         self.lines_of = {}                    # file id -> list (per item) of physical lines
